@@ -400,9 +400,11 @@ def inline(rnd, hazard):
             "decls": fdecls, "body": fbody, "result": "res"}
     # ---- two further families, each with its own callee
     fam = rnd.random()
-    if not hazard and fam < 0.25:
+    # (decided before and independently of `hazard`, so that the hazard-free
+    # twin of a seed is the same program family)
+    if fam < 0.25:
         return _inline_section_nd(rnd), None
-    if not hazard and fam < 0.4:
+    if fam < 0.4:
         return _inline_import_clash(rnd), None
     # ---- caller
     style = rnd.choice(["elem_loopvar", "elem_const", "scalar", "section"])
@@ -581,6 +583,13 @@ def dep(rnd, hazard):
             return [["assign", A("m2", B("/", B("+", B("*", I(2), V("d_i")),
                                                I(1)), I(2)), V(iv)),
                      B("+", A("m2", V("d_i"), B("-", V(iv), I(1))), R(1.0))]]
+        if x < 0.65:
+            # two different statements write the same array at subscripts
+            # that overlap across iterations (write-after-write only)
+            off = rnd.choice([1, -1])
+            return [["assign", A(w, V(iv)), A(r, V(iv))],
+                    ["assign", A(w, B("+", V(iv), I(off))),
+                     ["neg", A(r, V(iv))]]]
         if x < 0.75:
             return [["if", [[C(">", A(r, V(iv)), R(0.0)),
                              [["assign", V("r1"), A(r, V(iv))]]]], None],
